@@ -205,6 +205,15 @@ fn float_renderings(f: f64) -> Vec<String> {
     } else if fixed.len() < 400 {
         v.push(format!("{}.", fixed));
         v.push(format!("{}.0", fixed));
+        if fixed.parse::<i64>().is_err() {
+            // an integer-looking numeral beyond the i64 range is a float: shortest digits padded with zeros, and the exact
+            // decimal expansion (`9223372036854775808` for 2^63)
+            v.push(fixed.clone());
+            let exact = format!("{:.0}", f);
+            if exact != fixed && exact.len() < 400 && exact.parse::<i64>().is_err() {
+                v.push(exact);
+            }
+        }
     }
     v
 }
@@ -294,6 +303,7 @@ impl Property for C06 {
         cases.push(tok_case("a-1e+2", Some(format!("ID:61 Minus F:{:016x}", 1e2f64.to_bits())), "named"));
         // floats
         let mut floats: Vec<f64> = float_pool().into_iter().filter(|f| f.is_finite() && f.is_sign_positive()).collect();
+        floats.extend([9223372036854775808.0, 18446744073709551616.0, 9223372036854777856.0, 1e19, 1e22]);
         let n_f = if tier == Tier::Quick { 4000 } else { 400_000 };
         for k in 0..n_f {
             let f = match k % 4 {
@@ -306,15 +316,22 @@ impl Property for C06 {
                 floats.push(f);
             }
         }
-        let lefts = [("+", "Plus"), ("-", "Minus"), ("*", "Star"), ("(", "LBrace"), (",", "Comma")];
+        let lefts = [("+", "Plus"), ("-", "Minus"), ("*", "Star"), ("(", "LBrace"), (",", "Comma"), (")-", "RBrace Minus"), ("--", "Minus Minus"), ("x-", "ID:78 Minus")];
         let rights = [("+", "Plus"), ("-", "Minus"), ("*", "Star"), (")", "RBrace"), (",", "Comma")];
         for (n, f) in floats.iter().enumerate() {
             let want = format!("F:{:016x}", f.to_bits());
             for (j, r) in float_renderings(*f).into_iter().enumerate() {
                 cases.push(tok_case(&r, Some(want.clone()), &format!("float-r{}", j)));
-                let (l, ln) = lefts[(n + j) % 5];
+                let (l, ln) = lefts[(n + j) % 8];
                 let (rt, rn) = rights[(n / 5 + j) % 5];
                 cases.push(tok_case(&format!("{}{}{}", l, r, rt), Some(format!("{} {} {}", ln, want, rn)), "float-embedded"));
+                if r.bytes().all(|b| b.is_ascii_digit()) {
+                    // an integer-looking float (beyond the i64 range) after every kind of left neighbour, signs included
+                    for (l, ln) in lefts {
+                        cases.push(tok_case(&format!("{}{}{}", l, r, rt), Some(format!("{} {} {}", ln, want, rn)), "float-embedded"));
+                        cases.push(tok_case(&format!("{}{}", l, r), Some(format!("{} {}", ln, want)), "float-embedded"));
+                    }
+                }
             }
         }
         // a string literal (or another non-word token) directly after `<digits>e` and a sign is still itself (spec-side cases)
